@@ -28,7 +28,8 @@ def main(argv):
         tier = "quick"
     else:
         tier = argv[1]
-    tier = os.environ.get("VERIF_TIER", tier) if argv[1] != "--replay" else tier
+    if tier not in ("quick", "thorough"):  # the command-line tier wins; VERIF_TIER is only a fallback
+        tier = os.environ.get("VERIF_TIER", "quick")
     if tier not in ("quick", "thorough"):
         tier = "quick"
     seed = int(os.environ.get("VERIF_SEED", "0") or 0)
